@@ -28,6 +28,8 @@ CONFIGS = {
     "write3": {"MaxOps": 3},
     "write4": {"MaxOps": 4},
     # sampling / admission: one client, three keys, costs and capacities around the fit boundary
+    "cost4": {"Keys": [1, 2, 3], "Hashes": [1, 2, 3], "Clients": [1], "MaxOps": 4, "Ops": ["set", "del", "get", "maxcost"],
+              "BufCap": 2, "Costs": [1, 2, 3], "InitMaxCost": 3, "MaxCosts": [3, 4], "MaxGets": 2},
     "cost5": {"Keys": [1, 2, 3], "Hashes": [1, 2, 3], "Clients": [1], "MaxOps": 5, "Ops": ["set", "del", "get", "maxcost"],
               "BufCap": 2, "Costs": [1, 2, 3], "InitMaxCost": 3, "MaxCosts": [3, 4], "MaxGets": 2},
     "cost6": {"Keys": [1, 2, 3], "Hashes": [1, 2, 3], "Clients": [1], "MaxOps": 6, "Ops": ["set", "del", "get", "maxcost"],
@@ -45,6 +47,8 @@ CONFIGS = {
                  "Costs": [1], "InitMaxCost": 2, "MaxCosts": [2]},
     "handoff4": {"Keys": [1], "Hashes": [1], "Clients": [1, 2], "MaxOps": 4, "Ops": ["set", "del", "wait", "clear"],
                  "Costs": [1], "InitMaxCost": 2, "MaxCosts": [2]},
+    "close3": {"Keys": [1, 2], "Hashes": [1, 2], "Clients": [1], "MaxOps": 4, "Ops": ["set", "del", "wait", "clear", "close", "get"],
+               "Costs": [1], "InitMaxCost": 2, "MaxCosts": [2], "BufCap": 2, "TTLs": [0, 2], "MaxTime": 1},
     "close4": {"Keys": [1, 2], "Hashes": [1, 2], "Clients": [1], "MaxOps": 5, "Ops": ["set", "del", "wait", "clear", "close", "get"],
                "Costs": [1], "InitMaxCost": 2, "MaxCosts": [2], "BufCap": 2, "TTLs": [0, 2], "MaxTime": 1},
     # engineered collisions on the primary hash
@@ -55,7 +59,14 @@ CONFIGS = {
     # ShouldUpdate refusals
     "refuse4": {"Keys": [1], "Hashes": [1], "Clients": [1, 2], "MaxOps": 4, "Ops": ["set", "del", "wait"], "Costs": [1],
                 "InitMaxCost": 2, "MaxCosts": [2], "RefuseVals": [2, 3]},
+    # single client, room to spare: the cache must behave as the reference map (C06)
+    "ref4": {"Keys": [1, 2], "Hashes": [1, 2], "Clients": [1], "MaxOps": 4, "Ops": ["set", "del", "get", "wait"], "Costs": [1],
+             "InitMaxCost": 10, "MaxCosts": [10], "BufCap": 2, "TTLs": [0, 2], "MaxTime": 3},
+    "ref5": {"Keys": [1, 2], "Hashes": [1, 2], "Clients": [1], "MaxOps": 5, "Ops": ["set", "del", "get", "wait"], "Costs": [1],
+             "InitMaxCost": 10, "MaxCosts": [10], "BufCap": 2, "TTLs": [0, 2], "MaxTime": 3},
     # ---- simulation-only (too large to exhaust) ----
+    "sim_ref": {"Keys": [1, 2, 3], "Hashes": [1, 2, 3], "Clients": [1], "MaxOps": 12, "Ops": ["set", "del", "get", "wait", "gettl", "clear"],
+                "Costs": [1, 2], "InitMaxCost": 30, "MaxCosts": [30], "BufCap": 3, "TTLs": [0, 1, 3], "MaxTime": 8, "MaxGets": 3},
     "sim_write": {"Keys": [1, 2, 3], "Hashes": [1, 2, 3], "MaxOps": 10, "BufCap": 2, "InitMaxCost": 3, "MaxCosts": [3], "MaxGets": 3},
     "sim_cost": {"Keys": [1, 2, 3, 4], "Hashes": [1, 2, 3, 4], "Clients": [1, 2], "MaxOps": 12, "Ops": ["set", "del", "get", "maxcost", "wait"],
                  "BufCap": 3, "Costs": [1, 2, 3], "InitMaxCost": 4, "MaxCosts": [4, 6], "MaxGets": 4},
@@ -85,25 +96,31 @@ PLAN = {
             "sim": [("sim_coll", 400, 6000, 60), ("sim_str", 300, 4000, 60)]},
     "C02": {"mc": {"quick": ["write3"], "thorough": ["write4", "handoff4"]},
             "sim": [("sim_write", 400, 6000, 60), ("sim_ttl", 300, 4000, 60), ("sim_handoff", 200, 3000, 60)]},
-    "C03": {"mc": {"quick": ["cost5", "costfn"], "thorough": ["cost6", "costfn"]},
+    "C03": {"mc": {"quick": ["cost4", "costfn"], "thorough": ["cost5", "costfn"]},
             "sim": [("sim_cost", 600, 8000, 70), ("sim_write", 200, 3000, 60)]},
     "C04": {"mc": {"quick": ["write3", "handoff3", "refuse4"], "thorough": ["write4", "handoff4", "refuse4", "ttl3"]},
             "sim": [("sim_write", 300, 4000, 60), ("sim_handoff", 300, 4000, 60), ("sim_refuse", 200, 3000, 60), ("sim_ttl", 200, 3000, 60)]},
     "C05": {"mc": {"quick": ["write3"], "thorough": ["write4", "handoff4"]},
             "sim": [("sim_write", 500, 8000, 60), ("sim_handoff", 300, 4000, 60)]},
-    "C07": {"mc": {"quick": ["ttl2"], "thorough": ["ttl3"]},
-            "sim": [("sim_ttl", 700, 10000, 60)]},
-    "C09": {"mc": {"quick": ["cost5"], "thorough": ["cost6"]},
+    "C06": {"mc": {"quick": ["ref4"], "thorough": ["ref5"]},
+            "sim": [("sim_ref", 800, 12000, 70)]},
+    "C07": {"mc": {"quick": ["ttl2"], "thorough": ["ttl3", "ref5"]},
+            "sim": [("sim_ttl", 500, 8000, 60), ("sim_ref", 400, 6000, 70)]},
+    "C08": {"mc": {"quick": ["handoff3"], "thorough": ["handoff4"]}, "live": {"quick": ["handoff3"], "thorough": ["handoff3", "live4"]},
+            "sim": [("sim_handoff", 400, 6000, 60), ("sim_close", 200, 3000, 60)], "free": (2, 30), "race": True},
+    "C09": {"mc": {"quick": ["cost4"], "thorough": ["cost5"]},
             "sim": [("sim_cost", 800, 12000, 70)]},
     "C13": {"mc": {"quick": ["write3", "ttl2"], "thorough": ["write4", "ttl3", "handoff4"]},
             "sim": [("sim_write", 300, 4000, 60), ("sim_ttl", 300, 4000, 60), ("sim_handoff", 200, 3000, 60)]},
     "C14": {"mc": {"quick": ["ttl2"], "thorough": ["ttl3"]},
             "sim": [("sim_ttl", 800, 12000, 60)]},
-    "C15": {"mc": {"quick": ["handoff3", "close4"], "thorough": ["handoff4", "close4"]},
+    "C15": {"mc": {"quick": ["handoff3", "close3"], "thorough": ["handoff4", "close4"]},
             "sim": [("sim_close", 500, 8000, 60), ("sim_handoff", 300, 4000, 60)]},
-    "C17": {"mc": {"quick": ["write3", "cost5"], "thorough": ["write4", "cost6", "handoff4"]},
+    "C17": {"mc": {"quick": ["write3", "cost4"], "thorough": ["write4", "cost5", "handoff4"]},
             "sim": [("sim_write", 300, 4000, 60), ("sim_cost", 300, 4000, 70), ("sim_handoff", 200, 3000, 60)]},
 }
+
+OBSERVERS = {"C06": ("ObsCache", "ObsRef"), "C07": ("ObsCache", "ObsRef")}
 
 # which modelled repair explains a violated invariant (value of `bad` in the last state helps)
 def toggle_for(violated, last_state, current):
@@ -163,6 +180,21 @@ def run(ctx, pid):
     states, trans, leads, mcsumm = model_check(ctx, pid, plan["mc"][ctx.tier])
     if states == 0:
         raise Inconclusive("no configuration of the design spec could be model-checked completely")
+    live_summ = []
+    for name in plan.get("live", {}).get(ctx.tier, []):
+        # C08: no reachable state in which a call is stuck, and every call returns under fairness
+        cfg, c = cachelib.render_cfg(CONFIGS[name], invariants=["TypeOK", "C08_NoHang"], properties=["C08_CallsReturn"], spec="FairSpec")
+        r = vlib.tlc(ctx, cachelib.SPEC_FILES, "MCRistretto", cfg, name="live-" + name, timeout=ctx.pick(600, 3000))
+        live_summ.append({"config": name, "distinct": r.distinct, "generated": r.generated,
+                          "result": "pass" if r.ok else (r.violated or r.error), "wall_s": round(r.wall, 1)})
+        if r.ok:
+            states += r.distinct
+            trans += r.generated
+        elif r.violated:
+            ctx.notes.append("design spec: %s violated in liveness config %s (lead only; the verdict comes from real executions)" % (r.violated, name))
+            log("design spec: %s violated in %s (lead)" % (r.violated, name))
+        else:
+            raise Inconclusive("TLC failed on liveness config %s: %s" % (name, r.error))
     groups = []   # (consts resolved, jsonl path, n)
     samples = []
     # leads first
@@ -194,12 +226,27 @@ def run(ctx, pid):
         for k in total:
             total[k] += summ.get(k, 0)
         drift_first += [name + ": " + x for x in (summ.get("driftFirst") or [])][:3]
-        bad, r = cachelib.observe(ctx, trace, name="observe-" + name)
+        bad, r = cachelib.observe(ctx, trace, name="observe-" + name, modules=OBSERVERS.get(pid, ("ObsCache",)))
         mine = [b for b in bad if b["p"] == pid]
         for b in mine:
             b["config"] = name
             b["tracefile"] = b.get("chunk", trace)
         allbad += mine
+    # free-running concurrent executions (not derived from the model), judged by the same observers
+    fr = plan.get("free", (1, 6))
+    rounds = ctx.pick(fr[0], fr[1])
+    trace, fsumm, out = cachelib.free_run(ctx, cachelib.free_scenarios(), rounds=rounds, race=plan.get("race", ctx.tier == "thorough"),
+                                          timeout=ctx.pick(900, 3000))
+    bad, r = cachelib.observe(ctx, trace, name="observe-free", modules=("ObsCache",))
+    for b in bad:
+        if b["p"] == pid:
+            b["config"] = "free-running"
+            b["tracefile"] = b.get("chunk", trace)
+            allbad.append(b)
+    total["traces"] += fsumm["traces"]
+    total["events"] += fsumm["events"]
+    free_info = {"rounds": rounds, "scenarios": [s["name"] for s in cachelib.free_scenarios()], "traces": fsumm["traces"],
+                 "events": fsumm["events"], "race_detector": plan.get("race", ctx.tier == "thorough")}
     ctx.drift = total["drift"]
     for x in drift_first[:5]:
         log("CONFORMANCE-DRIFT property=%s %s" % (pid, x))
@@ -212,7 +259,7 @@ def run(ctx, pid):
         "behaviours_replayed": total["realised"], "behaviours_unrealised": total["unrealised"],
         "replay_steps": total["steps"], "events_validated": total["events"],
         "design_counterexamples_replayed": len(leads),
-        "model_checking_runs": mcsumm,
+        "model_checking_runs": mcsumm, "liveness_runs": live_summ, "free_running": free_info,
         "samples": samples[:4],
         "exhaustive": True,
         "rule": "exhaustive TLC on the listed small configurations of Ristretto.tla; TLC -simulate behaviours of the larger "
